@@ -877,8 +877,9 @@ class ExcelFormula:
             :return: the constructed error message if not reraising
             """
             if exc:
+                # drop what operators captured before the exception was raised
+                del error_messages[:]
                 capture_error_state(exc, msg)
-                assert 1 == len(error_messages)
             trace, msg = error_messages.pop()
             fmt_str = "{0}Eval: {1}" if msg is None else "{0}Eval: {1}\n{2}"
             error_msg = fmt_str.format(trace, python_code, msg)
